@@ -243,6 +243,10 @@ def rule_xp_verdicts(cx, rep, port=None):
     na = {s.name.split(':')[1]: sorted(h.name for h in s.sstr.holes()) for s in a}
     nb = {s.name.split(':')[1]: sorted(h.name for h in s.sstr.holes()) for s in b}
     diff = {k: (na.get(k), nb.get(k)) for k in set(na) | set(nb) if na.get(k) != nb.get(k)}
+    if diff and all(v_[0] is None or v_[1] is None for v_ in diff.values()) and (ea or eb):
+        # a configuration that one port's generator could not be evaluated for is not a difference between the ports
+        rep.undecided('skeleton fragments', (cx.js.files['rbql'], 0), 'the code generator of one port could not be evaluated for {} configuration(s): {}'.format(len(diff), str((ea or eb)[0])[:160]))
+        return
     rep.decide(not diff and na, 'skeleton fragments', (cx.js.files['rbql'], 0), '{} configurations compose with the same user fragments in both ports'.format(len(na)), 'the ports embed different user fragments: {}'.format(diff))
     from .conf import table
     wa, ra, _ = table(cx, 'py')
